@@ -162,6 +162,13 @@ let () =
         let b = Buffer.create 256 in show_tree b (inline root); print_endline (Buffer.contents b)
       end else begin
       let steps = List.map parse_step (split_nonempty ' ' msgs) in
+      (* input validation only: every edit must address a pipeline of the MODEL's tree of that moment *)
+      let rec addressed t = function
+        | [] -> true
+        | i :: p -> (match List.nth_opt t (int_of_nat i) with Some (HPipe (_, c)) -> addressed c p | _ -> false) in
+      ignore (List.fold_left (fun t s -> match s with
+        | SEdit e -> if addressed t e.e_path then apply_edit e t else failwith "edit path does not address a pipeline of the model tree"
+        | SMsg _ -> t) root steps);
       if mode = "oracle" then begin
         let trs = List.map (fun tr -> List.filter_map parse_event (split_nonempty ';' tr)) traces in
         print_endline (String.concat "" (List.map (fun n -> string_of_int (int_of_nat n)) (which_steps root steps trs)))
